@@ -128,6 +128,28 @@ def checkLoadEnv (j : Json) : Except String Verdict := do
     | some c => if get out "cluster" != some c then
         v := v.mon "C14" "selected_cluster_as_stated" 0 s!"UPSTREAM_CLUSTER={c} loaded as cluster {get out "cluster"}"
     | none => pure ()
+    -- durations as the deployment writes them (Go duration syntax, the units the documentation uses)
+    let secs (d : String) : Option Int :=
+      let num := d.toList.takeWhile Char.isDigit
+      let unit := String.ofList (d.toList.dropWhile Char.isDigit)
+      match (String.ofList num).toNat?, unit with
+      | some n, "s" => some n | some n, "m" => some (n * 60) | some n, "h" => some (n * 3600) | _, _ => none
+    let geti (o : Json) (k : String) : Option Int := (o.getObjVal? k).toOption.bind (·.getInt?.toOption)
+    for (var, field, props) in [("SESSION_TTL_LIFETIME", "ttlLifetime", ["C04", "C14"]), ("SESSION_TTL_VALID", "ttlValid", ["C04", "C14"]),
+                                ("SESSION_TTL_GRACEPERIOD", "ttlGrace", ["C05", "C14"])] do
+      match (get env var).bind secs with
+      | some want => if geti out field != some want then
+          v := v.mons props "session_ttl_as_stated" 0 s!"{var}={(get env var).getD ""} is in force as {geti out field} s"
+      | none => pure ()
+    for (var, field) in [("SESSION_COOKIE_NAME", "cookieName"), ("SESSION_COOKIE_DOMAIN", "cookieDomain")] do
+      match get env var with
+      | some want => if get out field != some want then v := v.mons ["C18", "C14"] "cookie_setting_as_stated" 0 s!"{var}={want} loaded as {get out field}"
+      | none => pure ()
+    for (var, field) in [("UPSTREAM_DEFAULT_EMAIL_DOMAINS", "defaultDomains"), ("UPSTREAM_DEFAULT_EMAIL_ADDRESSES", "defaultAddresses")] do
+      match get env var with
+      | some want => if (jstrArr out field).toOption.getD [] != want.splitOn "," then
+          v := v.mons ["C14", "C11"] "deployment_default_as_stated" 0 s!"{var}={want} loaded as {(jstrArr out field).toOption.getD []}"
+      | none => pure ()
     match get env "UPSTREAM_DEFAULT_GROUPS" with
     | some g =>
       let gotG := (jstrArr out "defaultGroups").toOption.getD []
@@ -137,6 +159,15 @@ def checkLoadEnv (j : Json) : Except String Verdict := do
   pure v
 
 def checkCase (j : Json) : Except String Verdict := do
+  if (j.getObjVal? "kind").toOption.bind (·.getStr?.toOption) == some "rawyaml" then
+    -- a document with a value of the wrong YAML type is refused — never loaded with the mistyped restriction left out
+    let out := (j.getObjVal? "out").toOption.getD Json.null
+    let loaded := (out.getObjVal? "loaded").toOption.bind (·.getBool?.toOption) |>.getD false
+    let mut v : Verdict := { nontrivial := true }
+    v := v.cmp 0 "rawyaml.loaded" false loaded ["C14"]
+    if loaded then
+      v := v.mon "C14" "mistyped_document_refused" 0 s!"loaded as {((out.getObjVal? "ups").toOption.getD Json.null).compress} from: {((j.getObjVal? "yaml").toOption.bind (·.getStr?.toOption)).getD ""}"
+    return v.br "rawyaml"
   if (j.getObjVal? "kind").toOption.bind (·.getStr?.toOption) == some "loadenv" then return ← checkLoadEnv j
   if (j.getObjVal? "kind").toOption.bind (·.getStr?.toOption) == some "env" then return ← checkEnv j
   let doc ← jget j "doc"
@@ -166,6 +197,13 @@ def checkCase (j : Json) : Except String Verdict := do
     v := v.cmp 0 "config.count" ups.length iups.length ["C14"]
     v := v.br "loaded"
     if !ups.isEmpty then v := { v with nontrivial := true }
+    -- C13: rewrite routes are tried in the order the configuration resolves them — every service's own route in file order,
+    -- then the extra routes in file order (a later service's route is never outranked by an earlier service's extra route)
+    let key (j : Json) : String := s!"{(j.getObjVal? "service").toOption.getD Json.null}|{(j.getObjVal? "from").toOption.getD Json.null}"
+    let wantOrder := ups.map fun m => key (resolvedJson m)
+    let gotOrder := iups.map key
+    if wantOrder != gotOrder && wantOrder.toArray.qsort (· < ·) == gotOrder.toArray.qsort (· < ·) then
+      v := v.mons ["C13", "C14"] "routes_in_resolved_order" 0 s!"resolved order {gotOrder}, the configuration says {wantOrder}"
     let mut i := 0
     for (m, im) in ups.zip iups do
       v := v.cmp i "config.resolved" (resolvedJson m).compress (implResolvedJson im).compress ["C14", "C13"]
